@@ -935,3 +935,34 @@ async fn a_failed_multi_purge_erases_nothing() {
     .await;
     assert_eq!(rows(&still_there), &vec![json!("First")]);
 }
+
+#[tokio::test]
+async fn evidence_is_found_by_its_correction_status() {
+    let nexus = nexus("evidence_status").await;
+    ok(
+        &nexus,
+        r#"CREATE EVIDENCE ?e { SET FIELDS {evidence_class: "user_statement", payload: "it is raining"} }"#,
+    )
+    .await;
+    ok(
+        &nexus,
+        r#"MUTATE {
+            CREATE EVIDENCE ?fix { SET FIELDS {evidence_class: "user_statement", payload: "it was snowing"} }
+            CORRECT EVIDENCE "E-1" BY ?fix
+        }"#,
+    )
+    .await;
+
+    let corrected = ok(
+        &nexus,
+        r#"FIND(?e.id) WHERE { ?e EVIDENCE {status: "corrected"} }"#,
+    )
+    .await;
+    assert_eq!(rows(&corrected), &vec![json!("E-1")]);
+    let standing = ok(
+        &nexus,
+        r#"FIND(?e.id) WHERE { ?e EVIDENCE {status: "active"} }"#,
+    )
+    .await;
+    assert_eq!(rows(&standing), &vec![json!("E-2")]);
+}
